@@ -687,6 +687,39 @@ def part_rule(ctx, st, model):
 # ---------------------------------------------------------------------------
 # detect_bad_channels_cbin
 # ---------------------------------------------------------------------------
+def sglx_meta(kind, sites, ns, fs=30000):
+    """SpikeGLX meta text of an imec AP file with len(sites) channels + 1 sync; sites[c] = (shank, col, row) of the
+    channel stored at position c on disk."""
+    nch = len(sites)
+    if kind == "NP2.4":
+        ptype, vmax, maxint, shape = 24, 0.5, 8192, "(4,2,640)"
+        imro = "(24,%d)" % nch + "".join("(%d %d 0 0 %d)" % (c, s[0], s[2] * 2 + s[1]) for c, s in enumerate(sites))
+    elif kind == "NP2.1":
+        ptype, vmax, maxint, shape = 21, 0.5, 8192, "(1,2,640)"
+        imro = "(21,%d)" % nch + "".join("(%d 0 0 %d)" % (c, s[2] * 2 + s[1]) for c, s in enumerate(sites))
+    else:
+        ptype, vmax, maxint, shape = 1100, 0.6, 512, "(1,8,48)"
+        imro = "(0,%d)" % nch + "".join("(%d 0 0 500 250 1)" % c for c in range(nch))
+    shmap = shape + "".join("(%d:%d:%d:1)" % s for s in sites)
+    chmap = "(%d,0,1)" % nch + "".join("(AP%d;%d:%d)" % (c, c, c) for c in range(nch)) + "(SY0;%d:%d)" % (nch, nch)
+    meta = {"acqApLfSy": "%d,0,1" % nch, "appVersion": "20201103", "fileSizeBytes": ns * (nch + 1) * 2,
+            "fileTimeSecs": ns / fs, "firstSample": 0, "imAiRangeMax": vmax, "imAiRangeMin": -vmax,
+            "imDatPrb_pn": "NP2010", "imDatPrb_type": ptype, "imMaxInt": maxint, "imSampRate": fs,
+            "nSavedChans": nch + 1, "snsApLfSy": "%d,0,1" % nch, "snsSaveChanSubset": "0:%d" % nch,
+            "typeThis": "imec", "~imroTbl": imro, "~snsChanMap": chmap, "~snsShankMap": shmap}
+    return "".join("%s=%s\n" % kv for kv in meta.items())
+
+
+# recordings whose disk order differs from the sorted order: 4 shanks interleaved in blocks of 16 (hStripe-like),
+# single shank with the two halves swapped, NPultra with the sites visited in steps of 5
+SORT_SITES = {
+    "NP2.4": [([0, 1, 0, 1, 2, 3, 2, 3][c // 16], c % 2, (c % 16) // 2 + 8 * [0, 0, 1, 1, 0, 0, 1, 1][c // 16])
+              for c in range(128)],
+    "NP2.1": [(0, c % 2, ((c + 48) % 96) // 2) for c in range(96)],
+    "NPultra": [(0, (c * 5) % 8, ((c * 5) % 96) // 8) for c in range(96)],
+}
+
+
 def np_mode(col):
     vals, counts = np.unique(np.asarray(col), return_counts=True)
     return int(vals[np.argmax(counts)])       # argmax takes the first = smallest value among ties
@@ -839,6 +872,76 @@ def part_mode(ctx, st, model):
             st.count("mode_real_file")
             st.nontrivial.add(("mode-real", ridx, nb))
             sr.close()
+        # (c) files with meta-data whose on-disk channel order is NOT the sorted (shank, row, col) order the Reader
+        #     presents: given as a path (str / Path) and as a Reader, the labels are indexed in sorted order and are
+        #     the per-channel mode of detect_bad_channels over the sorted-order batches
+        kinds = ["NP2.4", "NP2.1", "NPultra"]
+        for kind in kinds:
+            sites = SORT_SITES[kind]
+            nc, fs, ns = len(sites), 30000, 30000
+            nb = rng.choice([3, 4, 5])
+            fbin = tmp / kind.replace(".", "") / "rec_g0_t0.imec0.ap.bin"
+            fbin.parent.mkdir()
+            fbin.with_suffix(".meta").write_text(sglx_meta(kind, sites, ns, fs))
+            np.zeros((4, nc + 1), dtype=np.int16).tofile(fbin)
+            d = {"op": "mode-file-order", "kind": kind, "nc": nc, "ns": ns, "n_batches": nb}
+            try:
+                sr0 = spikeglx.Reader(fbin, ignore_warnings=True)
+                order = np.asarray(sr0.raw_channel_order)[:nc]
+                s2v = np.asarray(sr0.sample2volts)[:nc]
+                sr0.close()
+            except Exception as e:
+                ctx.disagree("cannot open the synthetic %s recording: %r" % (kind, e), d, {"op": "mode"})
+                continue
+            if np.array_equal(order, np.arange(nc)):
+                ctx.disagree("the synthetic %s recording is not permuted on disk" % kind, d, {"op": "mode"})
+                continue
+            x, rs = background(2000 + len(kind), nc, ns, fs)           # channels in SORTED order
+            pd, pn, ntop = nc // 5, nc // 2, 6
+            x[pd] = 0
+            x[pn] += rs.standard_normal(ns) * 100e-6
+            x[nc - ntop:] = rs.standard_normal((ntop, ns)) * 5e-6
+            raw = np.zeros((ns, nc + 1), dtype=np.int16)
+            raw[:, order] = np.round(x.T / s2v[order]).astype(np.int16)
+            raw.tofile(fbin)
+            try:
+                with warnings.catch_warnings():
+                    warnings.simplefilter("ignore")
+                    sr = spikeglx.Reader(fbin)
+                    per_batch = []
+                    for t0 in np.linspace(0, ns / fs - 0.3, nb):
+                        lk, _ = voltage.detect_bad_channels(sr[int(t0 * fs):int((t0 + 0.3) * fs), :nc].T, fs=fs)
+                        per_batch.append([int(v) for v in lk])
+                    sr.close()
+                    want = [np_mode([b[c] for b in per_batch]) for c in range(nc)]
+                    got = {}
+                    for how, arg in (("path", fbin), ("str", str(fbin)), ("Reader", spikeglx.Reader(fbin))):
+                        got[how] = [int(v) for v in np.asarray(voltage.detect_bad_channels_cbin(arg, n_batches=nb)).reshape(-1)]
+                        if how == "Reader":
+                            arg.close()
+            except Exception as e:
+                ctx.fail("detect_bad_channels_cbin raised %r on a %s file" % (e, kind), d,
+                         {"op": "mode", "kind": "exception"})
+                continue
+            for how, g in got.items():
+                if g != want:
+                    diff = [c for c in range(min(len(g), nc)) if g[c] != want[c]][:12]
+                    ctx.fail("file labels (file given as %s, %s channel order permuted on disk) are not the per-channel "
+                             "mode over the sorted-order batches; first differing channels %s" % (how, kind, diff),
+                             dict(d, given_as=how, got=g, mode_over_batches=want), {"op": "mode", "kind": "file_order"})
+            expect = {pd: 1, pn: 2}
+            expect.update({c: 3 for c in range(nc - ntop, nc)})
+            seen_lab = {c: v for c, v in enumerate(want) if v != 0}
+            ctx.measurements["cbin_%s_permuted_file_labels" % kind] = {"expected": expect, "mode_over_batches": seen_lab}
+            if seen_lab != expect:
+                ctx.fail("%s file with a dead, a noisy and %d outside channels (sorted positions) is labelled %s"
+                         % (kind, ntop, seen_lab), d, {"op": "mode", "kind": "detect_file"})
+            inputs.append([3, nc, nb] + [v for b in per_batch for v in b])
+            outs.append(got["path"])
+            descs.append(dict(d, batches=per_batch))
+            st.evals += 3
+            st.count("mode_permuted_file_" + kind)
+            st.nontrivial.add(("mode-file-order", kind, nb))
     finally:
         import shutil
         shutil.rmtree(tmp, ignore_errors=True)
